@@ -753,26 +753,15 @@ func c04Flags(c *Ctx, g *load.G) {
 	// every option value that reaches builder.BuildParser, traced back through locals, parameters and `opts...`
 	mp := g.Pkg("")
 	fl := newFlow(mp, func(fn string) bool { return strings.HasSuffix(fn, "/pigeon.go") || strings.HasSuffix(fn, "_test.go") })
+	fm := newFlagModel(mp, func(fn string) bool { return strings.HasSuffix(fn, "/pigeon.go") || strings.HasSuffix(fn, "_test.go") })
 	flagOf := func(o origin) string {
-		// *v or v where v is a local defined by fs.Bool("name", …) / fs.String("name", …)
-		e := o.Expr
-		if se, ok := e.(*ast.StarExpr); ok {
-			e = se.X
+		// the value of a flag, however it is declared, possibly through a local or a parameter
+		if f := fm.flagOf(o.Expr); f != "" {
+			return f
 		}
-		for _, o2 := range fl.origins(e, o.Fd, 0) {
-			x := o2.Expr
-			if se, ok := x.(*ast.StarExpr); ok {
-				x = se.X
-				for _, o3 := range fl.origins(x, o2.Fd, 0) {
-					x = o3.Expr
-				}
-			}
-			if ce, ok := x.(*ast.CallExpr); ok && (callSel(ce) == "Bool" || callSel(ce) == "String") && len(ce.Args) >= 1 {
-				if bl, ok := ce.Args[0].(*ast.BasicLit); ok {
-					if v, err := strconv.Unquote(bl.Value); err == nil {
-						return v
-					}
-				}
+		for _, o2 := range fl.origins(o.Expr, o.Fd, 0) {
+			if f := fm.flagOf(o2.Expr); f != "" {
+				return f
 			}
 		}
 		return ""
